@@ -60,6 +60,7 @@ def run():
     # ... and the variant in which the VM is re-bound only after the cache went K1 -> K2 -> K1 (what the VM kept from its first binding must
     # still be valid or be refreshed: pointers into the cache object, compiled code, remembered key)
     allh += [(apiscen.late_rebind_history(kind), False, ks) for kind in ('IL', 'CL') for ks in range(len(apiscen.KEYSETS))]
+    allh += [(apiscen.same_struct_new_memory_history(kind), False, None) for kind in ('IL', 'CL')]
     scens = []
     combos = set()
     fullcombos = set()
